@@ -20,6 +20,8 @@ package splunk
 import (
 	"encoding/json"
 	"fmt"
+	"math"
+	"strconv"
 
 	"github.com/siglens/siglens/pkg/config"
 	writer "github.com/siglens/siglens/pkg/es/writer"
@@ -98,6 +100,37 @@ func ProcessSplunkHecIngestRequest(ctx *fasthttp.RequestCtx, myid int64) {
 	ctx.SetStatusCode(fasthttp.StatusOK)
 }
 
+// hecTimeToMillis converts the HEC "time" value to epoch milliseconds.
+func hecTimeToMillis(hecTime interface{}) (uint64, bool) {
+	var secs float64
+	switch v := hecTime.(type) {
+	case float64:
+		secs = v
+	case json.Number:
+		f, err := v.Float64()
+		if err != nil {
+			return 0, false
+		}
+		secs = f
+	case string:
+		f, err := strconv.ParseFloat(v, 64)
+		if err != nil {
+			return 0, false
+		}
+		secs = f
+	default:
+		return 0, false
+	}
+	if !(secs > 0) || secs >= 1e14 {
+		return 0, false
+	}
+	if secs >= 1e11 {
+		// already in milliseconds
+		return uint64(secs), true
+	}
+	return uint64(math.Round(secs * 1000)), true
+}
+
 func getPLE(record map[string]interface{}, myid int64, tsKey *string, jsParsingStackbuf []byte) (error, int, *segwriter.ParsedLogEvent) {
 	if record["index"] == "" || record["index"] == nil {
 		record["index"] = "default"
@@ -106,6 +139,17 @@ func getPLE(record map[string]interface{}, myid int64, tsKey *string, jsParsingS
 	indexNameIn, ok := record["index"].(string)
 	if !ok {
 		return fmt.Errorf("Index field should be a string"), fasthttp.StatusBadRequest, nil
+	}
+
+	// HEC carries the event's own time in "time" (epoch seconds, possibly with a
+	// fraction, as a number or a string). Use it as the event time unless the
+	// record already has a field under the configured timestamp key.
+	if tsKey != nil {
+		if _, hasTs := record[*tsKey]; !hasTs {
+			if tsMillis, ok := hecTimeToMillis(record["time"]); ok {
+				record[*tsKey] = tsMillis
+			}
+		}
 	}
 
 	recordAsBytes, err := json.Marshal(record)
